@@ -618,6 +618,7 @@ func (e *fdEngine) analyze(fn *ssa.Function, t *fdTerm) ([]fdFinding, map[*ssa.B
 		succState := func(k int) est { return s }
 		if iff, ok := b.Instrs[len(b.Instrs)-1].(*ssa.If); ok && t.val != nil {
 			cls := 0
+			isIs := false
 			var op token.Token
 			switch c := iff.Cond.(type) {
 			case *ssa.BinOp:
@@ -639,11 +640,18 @@ func (e *fdEngine) analyze(fn *ssa.Function, t *fdTerm) ([]fdFinding, map[*ssa.B
 			case *ssa.Call:
 				if f := c.Call.StaticCallee(); f != nil && qname(f) == "errors.Is" && len(c.Call.Args) == 2 && t.alias[c.Call.Args[0]] && isEOFLoad(c.Call.Args[1]) && !t.noEOF {
 					cls, op = cEOF, token.EQL
+					isIs = true
 				}
 			}
 			if cls != 0 {
 				eq := s.restrict(cls)
 				ne := s.restrict((cNil | cEOF | cOther) &^ cls)
+				if isIs {
+					// errors.Is(err, io.EOF) is also true for an error that wraps io.EOF (a failure reported by
+					// the stream as e.g. &fs.PathError{Err: io.EOF}): the true edge keeps class "other"
+					eq = s.restrict(cEOF | cOther)
+					ne = s.restrict(cNil | cOther)
+				}
 				if op == token.NEQ {
 					eq, ne = ne, eq
 				}
